@@ -26,6 +26,11 @@ ShrArgs ==
                Capacity - 1, Capacity, Capacity + 1, Cap(mB \div 2), Cap(mB \div 2) + 1,
                MaxUsize, MaxUsize \div 8, (MaxUsize \div 8) + 1})
 
+\* lower size hints handed to extend()
+HintArgs ==
+    IF ArgMode = "all" THEN 0..MaxUsize
+    ELSE Clip({0, 1, 2 * Free + 1, 2 * Free + 2, 2 * Capacity + 3, MaxUsize, MaxUsize - 1, MaxUsize \div 2, (MaxUsize \div 4) + 1})
+
 RuAll == {0, RuMaxAll}
 
 \* representative destination tables for clone_from: unallocated, empty, empty with tombstones
@@ -56,7 +61,7 @@ Next ==
     \/ \E f \in BOOLEAN : Drain(f)
     \/ \E n \in ResArgs, ru \in RuAll : ReserveCall(n, ru)
     \/ \E m \in ShrArgs : ShrinkTo(m)
-    \/ \E h \in ResArgs, ru \in RuAll : ExtendReserve(h, ru)
+    \/ \E h \in HintArgs, ru \in RuAll : ExtendReserve(h, ru)
     \/ \E ru \in RuAll : CloneSelf(ru)
     \/ \E D \in DestTables, ru \in RuAll : CloneFromInto(D, ru)
 
